@@ -944,7 +944,653 @@ theorem execAttempt_spec (cfg : Cfg) (tl : Bool) (a n : Nat) (u : View) (h : HF 
   all_goals first
     | assumption
     | skip
-  all_goals trace_state
-  all_goals sorry
+  · rename_i r _ hpost
+    cases r with
+    | none => exact absurd hpost id
+    | some o => exact hpost
+
+theorem HdX.exhausted {cfg : Cfg} {n : Nat} {v : View} {o : Outcome} (h : HdX n v) (hn : n = cfg.maxAttempts)
+    (ho : IsOutcome { v with lastStop := some .maxAttemptsGlobal } false none v.attempts none o) :
+    v.mon.fault = false ∧ outcomeOk cfg v.mon o = true := by
+  obtain ⟨⟨hops, ⟨s1, s2, s3, s4⟩, hfresh, hrec, hs, he, hd, hp⟩, _, ⟨sh1, sh2, sh3⟩, ⟨f1, f2, f3⟩, hat⟩ := h
+  obtain ⟨el, rfl⟩ := ho
+  refine ⟨f1, ?_⟩
+  rcases Nat.eq_zero_or_pos n with h0 | hpos
+  · obtain ⟨c1, c2, c3, c4, c5⟩ := hfresh h0
+    simp [outcomeOk, outcomeOf, C11.failureOk, hat, hops, hs, hd, f3, s1, s2, s3, s4, c1, c2, c3, c4, c5, h0, ← hn]
+  · obtain ⟨hra, hcls, hcs, hce, hcr⟩ := hrec hpos
+    cases hc : v.mon.recCause with
+    | none => simp [hc] at hcs
+    | some c =>
+      cases c with
+      | exception =>
+        obtain ⟨a1, a2, a3⟩ := sh1 hc
+        simp [outcomeOk, outcomeOf, C11.failureOk, hat, hops, hs, hd, f3, s1, s2, s3, s4, hc, a1, a2, a3, hra]
+        omega
+      | result =>
+        obtain ⟨a1, a2, a3⟩ := sh2 hc
+        simp [outcomeOk, outcomeOf, C11.failureOk, hat, hops, hs, hd, f3, s1, s2, s3, s4, hc, a1, a2, a3, hra]
+        omega
+
+/-- `build_exhausted_outcome` -/
+theorem buildExhaustedOutcome_spec (cfg : Cfg) (tl : Bool) (n : Nat) (u : View) (h : HF u ∨ HdX n u)
+    (hn : n = cfg.maxAttempts) :
+    ⦃fun w => ⌜view cfg w = u⌝⦄ buildExhaustedOutcome cfg tl
+    ⦃post⟨fun o w => ⌜OutOK cfg (view cfg w) o⌝, fun e w => ⌜RaiseOK (view cfg w) w.trace e⌝⟩⦄ := by
+  mvcgen [buildExhaustedOutcome, emitMaxAttemptsExceeded]
+  all_goals (try (intros; exact cfg))
+  all_goals ((try subst_vars) <;> (try intros))
+  · rename_i s4 _ s3 h3 _ s2 h2 _ s1 h1 o s ho hv
+    have e2 : view cfg s2 = view cfg s4 := by rw [h2, h3.1]
+    have hatt : s1.attempts = (view cfg s4).attempts := by
+      have := congrArg View.attempts h1
+      rw [e2] at this
+      exact this
+    rw [hv, h1, e2]
+    rw [h1, e2, hatt] at ho
+    rcases h with h | h
+    · exact Or.inl h
+    · exact Or.inr (h.exhausted rfl ho)
+  · rename_i s2 _ s1 h1 e' s ht hv _
+    rw [hv, h1.1]
+    rcases h with h | h
+    · exact Or.inl h
+    · exact RaiseOK.thrown ht h.2.2.2.1.2.1
+
+theorem execLoop_spec (cfg : Cfg) (tl : Bool) : ∀ (fuel a n : Nat) (u : View), HF u ∨ HdX n u → a = n + 1 →
+    n + fuel = cfg.maxAttempts →
+    ⦃fun w => ⌜view cfg w = u⌝⦄ execLoop cfg tl fuel a
+    ⦃post⟨fun o w => ⌜OutOK cfg (view cfg w) o⌝, fun e w => ⌜RaiseOK (view cfg w) w.trace e⌝⟩⦄ := by
+  intro fuel
+  induction fuel with
+  | zero =>
+    intro a n u h ha hn
+    have hx := buildExhaustedOutcome_spec cfg tl n u h (by omega)
+    mvcgen [execLoop, hx]
+  | succ f ih =>
+    intro a n u h ha hn
+    have hat := execAttempt_spec cfg tl a n u h ha
+    mvcgen [execLoop, hat]
+    all_goals ((try subst_vars) <;> (try intros))
+    all_goals (try (simp_all +zetaDelta; done))
+    rename_i s hs
+    exact ih (n + 1 + 1) (n + 1) (view cfg s) (by simpa using hs) rfl (by omega) s rfl
+
+theorem HdX.init : HdX 0 view0 := by
+  refine ⟨Hd.init, ?_⟩
+  simp [Base, view0, Sync, Shape, Flags]
+
+/-- `Retry.execute` (and its async twin) -/
+theorem runExecute_spec (cfg : Cfg) :
+    ⦃fun w => ⌜cur cfg w.trace = {}⌝⦄ runExecute cfg
+    ⦃post⟨fun o w => ⌜OutOK cfg (view cfg w) o⌝, fun e w => ⌜RaiseOK (view cfg w) w.trace e⌝⟩⦄ := by
+  have hloop := execLoop_spec cfg cfg.timeline cfg.maxAttempts 1 0 view0 (Or.inr HdX.init) rfl (by omega)
+  have hi := initState_spec cfg
+  mvcgen [runExecute, hloop, hi]
+
+/-! ### policy level -/
+open Policy
+
+/-- more of the monitor that the policy wrapper's own exchanges cannot move -/
+def keep2 (m : St) : Bool × Bool := (m.opAfterFault, m.hookFault)
+
+theorem step_polCK2 (cfg : Cfg) (s : St) (x : Req × Ans) (h : polCK x.1.kind = true) :
+    keep2 (step cfg s x) = keep2 s := by
+  obtain ⟨r, a⟩ := x
+  cases r <;> simp_all [polCK, polK, Req.kind, step, keep2]
+  cases a <;> simp [faultBy]
+  split <;> simp [record]
+
+theorem keep2_pext (cfg : Cfg) {w w' : World} (h : PExt polCK w w') :
+    keep2 (cur cfg w'.trace) = keep2 (cur cfg w.trace) := by
+  obtain ⟨⟨δ, e, k⟩, _, _⟩ := h
+  rw [e]
+  clear e
+  induction δ with
+  | nil => rfl
+  | cons x δ ih =>
+    have := ih (fun y hy => k y (by simp [hy]))
+    simp only [List.cons_append, cur_cons]
+    rw [step_polCK2 cfg _ x (k x (by simp)), this]
+
+theorem polK_polCK (k : Kind) (h : polK k = true) : polCK k = true := by
+  cases k <;> simp_all [polK, polCK]
+
+theorem PExt.mono {K K' : Kind → Bool} {w w' : World} (h : PExt K w w') (hk : ∀ k, K k = true → K' k = true) :
+    PExt K' w w' := by
+  obtain ⟨⟨δ, e, k⟩, hr, ha⟩ := h
+  exact ⟨⟨δ, e, fun x hx => hk _ (k x hx)⟩, hr, ha⟩
+
+/-- how execute() may end with an exception, in the form the monitor states it -/
+def RaiseOK' (v : View) (t : List (Req × Ans)) (e : Exn) : Prop :=
+  HF v ∨ ((v.mon.fault = false ∨ v.mon.opAfterFault = false) ∧ MayP v.mon t e)
+
+theorem RaiseOK.weaken {v : View} {t : List (Req × Ans)} {e : Exn} (h : RaiseOK v t e) : RaiseOK' v t e := by
+  rcases h with h | h
+  · exact Or.inl h
+  · exact Or.inr ⟨Or.inr h.1, h.2⟩
+
+/-- how `Policy.execute` may end -/
+def FinX (cfg : Cfg) : Except Exn Outcome → World → Prop
+  | .ok o, w => Rej w.trace ∨ OutOK cfg (view cfg w) o
+  | .error e, w => Rej w.trace ∨ RaiseOK' (view cfg w) w.trace e
+
+/-- an exception out of `Retry.execute`, while `Policy.execute`'s ladder handles it -/
+def ErrS (cfg : Cfg) (e : Exn) (w : World) : Prop := Rej w.trace ∨ RaiseOK (view cfg w) w.trace e
+
+theorem ErrS.pextC {cfg : Cfg} {e : Exn} {w w' : World} (h : PExt polCK w w')
+    (hf : ErrS cfg e w) : ErrS cfg e w' := by
+  have hk := keep_pext cfg h
+  have hk2 := keep2_pext cfg h
+  obtain ⟨⟨δ, he, k⟩, _, _⟩ := h
+  simp only [keep, keep2, Prod.mk.injEq] at hk hk2
+  obtain ⟨k1, k2, k3, k4, k5, k6, k7⟩ := hk
+  obtain ⟨k8, k9⟩ := hk2
+  simp only [ErrS, RaiseOK, HF, MayP, view] at hf ⊢
+  rcases hf with hf | hf | ⟨ho, hm⟩
+  · left; rw [he]; exact Rej.append δ hf
+  · right; left; rw [k9]; exact hf
+  · right; right
+    refine ⟨by rw [k8]; exact ho, ?_⟩
+    rcases hm with h1 | h1 | h1
+    · left; simpa [opRaised, k2] using h1
+    · exact Or.inr (Or.inl (by rw [he]; exact Thrown.append δ h1))
+    · exact Or.inr (Or.inr ⟨h1.1, by rw [k7]; exact h1.2⟩)
+
+theorem ErrS.fin {cfg : Cfg} {e : Exn} {w : World} (h : ErrS cfg e w) : FinX cfg (.error e) w := by
+  rcases h with h | h
+  · exact Or.inl h
+  · exact Or.inr h.weaken
+
+theorem ErrS.thrown {cfg : Cfg} {e e' : Exn} {w : World} (h : ErrS cfg e w) (ht : Thrown w.trace e') :
+    ErrS cfg e' w := by
+  rcases h with h | h | h
+  · exact Or.inl h
+  · exact Or.inr (Or.inl h)
+  · exact Or.inr (Or.inr ⟨h.1, MayP.thrown ht⟩)
+
+theorem FinX.pext {cfg : Cfg} {r : Except Exn Outcome} {w w' : World} (h : PExt polK w w')
+    (hf : FinX cfg r w) : FinX cfg r w' := by
+  have hv := view_pext cfg h
+  obtain ⟨⟨δ, e, k⟩, _, _⟩ := h
+  cases r with
+  | ok o =>
+    simp only [FinX, hv] at hf ⊢
+    rcases hf with hf | hf
+    · left; rw [e]; exact Rej.append δ hf
+    · exact Or.inr hf
+  | error ex =>
+    simp only [FinX, RaiseOK', hv] at hf ⊢
+    rcases hf with hf | hf | hf
+    · left; rw [e]; exact Rej.append δ hf
+    · exact Or.inr (Or.inl hf)
+    · exact Or.inr (Or.inr ⟨hf.1, by
+        rcases hf.2 with h1 | h1 | h1
+        · exact Or.inl h1
+        · exact Or.inr (Or.inl (by rw [e]; exact Thrown.append δ h1))
+        · exact Or.inr (Or.inr h1)⟩)
+
+/-- an exception raised by the policy wrapper's own exchanges after `r` was settled -/
+theorem FinX.thrown {cfg : Cfg} {r : Except Exn Outcome} {e : Exn} {w : World} (hi : FinX cfg r w)
+    (h : Thrown w.trace e) : FinX cfg (.error e) w := by
+  cases r with
+  | ok o =>
+    rcases hi with hi | hi | hi
+    · exact Or.inl hi
+    · exact Or.inr (Or.inl hi)
+    · exact Or.inr (Or.inr ⟨Or.inl hi.1, MayP.thrown h⟩)
+  | error ex =>
+    rcases hi with hi | hi | hi
+    · exact Or.inl hi
+    · exact Or.inr (Or.inl hi)
+    · exact Or.inr (Or.inr ⟨hi.1, MayP.thrown h⟩)
+
+theorem FinX.ofOut {cfg : Cfg} {o : Outcome} {w : World} (h : OutOK cfg (view cfg w) o) : FinX cfg (.ok o) w :=
+  Or.inr h
+
+/-- where `Policy.execute` is: handling an exception out of `Retry.execute`, or done with result `r` -/
+inductive Stage
+  | ladder (e : Exn)
+  | done (r : Except Exn Outcome)
+
+def FinY (cfg : Cfg) : Stage → World → Prop
+  | .ladder e, w => ErrS cfg e w
+  | .done r, w => FinX cfg r w
+
+theorem FinY.pext {cfg : Cfg} {st : Stage} {w w' : World} (h : PExt polK w w') (hf : FinY cfg st w) :
+    FinY cfg st w' := by
+  cases st with
+  | ladder e => exact ErrS.pextC (PExt.mono h polK_polCK) hf
+  | done r => exact FinX.pext h hf
+
+/-- `_execute_with_retry` -/
+theorem executeWithRetry_spec (cfg : Cfg) (hret : cfg.hasRetry = true) :
+    ⦃fun w => ⌜cur cfg w.trace = {}⌝⦄ executeWithRetry cfg
+    ⦃post⟨fun o w => ⌜FinX cfg (.ok o) w⌝, fun e w => ⌜FinX cfg (.error e) w⌝⟩⦄ := by
+  have hrun := runExecute_spec cfg
+  have hex := fun st e' => inv_of_pext polK (FinY cfg st)
+    (fun w0 => handleExhaustedCall_pext polK w0 cfg rfl rfl rfl e') (fun w w' h hf => hf.pext h)
+  have hrc := fun st => inv_of_pext polK (FinY cfg st) (fun w0 => recordCancel_pext polK w0 cfg rfl)
+    (fun w w' h hf => hf.pext h)
+  have hec := fun e e' b => inv_of_pext polCK (ErrS cfg e)
+    (fun w0 => handleExceptionCall_pext polCK w0 cfg hret rfl rfl rfl rfl e' b) (fun w w' h hf => hf.pextC h)
+  have hrs := fun st => inv_of_pext polK (FinY cfg st) (fun w0 => recordSuccess_pext polK w0 cfg rfl rfl rfl)
+    (fun w w' h hf => hf.pext h)
+  have hrf := fun st k => inv_of_pext polK (FinY cfg st) (fun w0 => recordFailure_pext polK w0 cfg rfl rfl rfl k)
+    (fun w w' h hf => hf.pext h)
+  mvcgen [executeWithRetry, executeLadder, hrun, hex, hrc, hec, hrs, hrf]
+  all_goals ((try subst_vars) <;> (try intros))
+  all_goals (try clear hrun hex hrc hec hrs hrf)
+  all_goals (try (first | exact Stage.done (.ok (by assumption)) | exact Stage.ladder (by assumption)))
+  all_goals (try simp only [restore_dummy])
+  all_goals first
+    | exact FinX.ofOut (by assumption)
+    | exact (show FinY cfg (.done _) _ from Or.inr (by assumption))
+    | exact (show FinY cfg (.ladder _) _ from Or.inr (by assumption))
+    | exact (show ErrS cfg _ _ from Or.inr (by assumption))
+    | exact (by assumption : FinY cfg (.done _) _)
+    | exact FinX.thrown (by assumption : FinY cfg (.done _) _) (by assumption)
+    | exact ErrS.fin (by assumption : FinY cfg (.ladder _) _)
+    | exact ErrS.fin (ErrS.thrown (by assumption : FinY cfg (.ladder _) _) (by assumption))
+    | exact ErrS.fin (by assumption : ErrS cfg _ _)
+    | exact ErrS.fin (ErrS.thrown (by assumption : ErrS cfg _ _) (by assumption))
+    | exact ErrS.fin (Or.inr (by assumption))
+    | skip
+
+theorem policyOutcome_pext (K : Kind → Bool) (w0 : World) (ok : Bool) (value : Option Nat)
+    (stop : Option StopReason) (attempts : Nat) (lc : Option EClass) (le : Option String) (cause : Option Cause) :
+    ⦃fun w => ⌜PExt K w0 w⌝⦄ policyOutcome ok value stop attempts lc le cause ⦃pextPost K w0⦄ := by
+  mvcgen [policyOutcome, xElapsed]
+
+theorem breakerAllow_inv (cfg : Cfg) (bc : Breaker.Cfg) :
+    ⦃fun w => ⌜cur cfg w.trace = {}⌝⦄ breakerAllow bc
+    ⦃post⟨fun d w => ⌜cur cfg w.trace = {} ∧ (d.1 = false → Rej w.trace)⌝, fun _ _ => ⌜False⌝⟩⦄ := by
+  apply triple_of_run
+  intro w hw
+  have := adequacy (breakerAllow_pext polK w rfl bc) w (PExt.refl _ _)
+  split <;> simp_all
+  exact cur_pext cfg this.1 hw
+
+theorem rej_pext {w w' : World} (h : PExt polK w w') (hr : Rej w.trace) : Rej w'.trace := by
+  obtain ⟨⟨δ, e, _⟩, _, _⟩ := h
+  rw [e]; exact Rej.append δ hr
+
+theorem prelude_thrown {cfg : Cfg} {w : World} {e : Exn} (h0 : cur cfg w.trace = {}) (ht : Thrown w.trace e) :
+    FinX cfg (.error e) w := by
+  right; right
+  refine ⟨Or.inl ?_, MayP.thrown ht⟩
+  show (cur cfg w.trace).fault = false
+  rw [h0]
+
+/-- the admitted part of `Policy.execute` with a retry component -/
+theorem executeAdmitted_spec (cfg : Cfg) (hret : cfg.hasRetry = true) :
+    ⦃fun w => ⌜cur cfg w.trace = {}⌝⦄ executeAdmitted cfg
+    ⦃post⟨fun o w => ⌜FinX cfg (.ok o) w⌝, fun e w => ⌜FinX cfg (.error e) w⌝⟩⦄ := by
+  have hwr := executeWithRetry_spec cfg hret
+  have hba := breakerAllow_inv cfg
+  have hev := fun (d : Bool) ev st k => inv_of_pext polK (fun w => cur cfg w.trace = {} ∧ (d = false → Rej w.trace))
+    (fun w0 => emitBreakerEvent_pext polK w0 cfg rfl rfl ev st k)
+    (fun w w' h hw => ⟨cur_pext cfg h hw.1, fun hd => rej_pext h (hw.2 hd)⟩)
+  have hpo := fun a b c d e f g => inv_of_pext polK (fun w => Rej w.trace)
+    (fun w0 => policyOutcome_pext polK w0 a b c d e f g) (fun w w' h hw => rej_pext h hw)
+  unfold executeAdmitted executeAdmitted2
+  simp only [hret, if_true, Bool.false_eq_true, if_false]
+  mvcgen [hwr, hba, hev, hpo]
+  all_goals ((try subst_vars) <;> (try intros))
+  all_goals (try clear hwr hba hev hpo)
+  all_goals first
+    | assumption
+    | exact (by assumption : _ ∧ _).1
+    | exact Or.inl (by assumption)
+    | exact prelude_thrown (by assumption) (by assumption)
+    | skip
+  · rename_i d _ hd _ h
+    exact h.2 (by simpa using hd)
+
+/-- `Policy.execute` with a retry component (also `RetryPolicy.execute`, contexts, async twins) -/
+theorem execute_retry_spec (cfg : Cfg) (hret : cfg.hasRetry = true) :
+    ⦃fun w => ⌜cur cfg w.trace = {}⌝⦄ Policy.execute cfg
+    ⦃post⟨fun o w => ⌜FinX cfg (.ok o) w⌝, fun e w => ⌜FinX cfg (.error e) w⌝⟩⦄ := by
+  have hic := inv_of_pext polK (fun w => cur cfg w.trace = {}) (fun w0 => initCtx_pext polK w0)
+    (fun w w' h h0 => cur_pext cfg h h0)
+  have hadm := executeAdmitted_spec cfg hret
+  have hes := fun r => inv_of_pext polK (FinX cfg r) (fun w0 => ensureSettled_pext polK w0 cfg rfl)
+    (fun w w' h hf => hf.pext h)
+  mvcgen [Policy.execute, withFinally, hic, hadm, hes]
+  all_goals ((try subst_vars) <;> (try intros))
+  all_goals (try clear hic hadm hes)
+  all_goals (try simp only [restore_dummy])
+  all_goals first
+    | assumption
+    | exact FinX.thrown (by assumption) (by assumption)
+    | exact prelude_thrown (by assumption) (by assumption)
+    | skip
+
+/-! ### the theorems -/
+
+theorem step_hookFault (cfg : Cfg) (s : St) (r : Req) (a : Ans) :
+    (step cfg s (r, a)).hookFault = (s.hookFault || (isAttemptHook r && (match a with
+      | .raise .. => true
+      | _ => false))) := by
+  cases r <;> cases a <;> simp [step, isAttemptHook, faultBy] <;> (repeat' split) <;> simp_all [record]
+
+theorem hookFault_fold (cfg : Cfg) (t : List (Req × Ans)) :
+    (cur cfg t).hookFault = attemptHookFault t := by
+  induction t with
+  | nil => rfl
+  | cons x t ih =>
+    obtain ⟨r, a⟩ := x
+    simp only [cur_cons, attemptHookFault, List.any_cons] at ih ⊢
+    rw [step_hookFault, ih, Bool.or_comm]
+    cases a <;> rfl
+
+theorem attemptHookFault_reverse (t : List (Req × Ans)) : attemptHookFault t.reverse = attemptHookFault t := by
+  simp [attemptHookFault]
+
+theorem mayPropagate_of {cfg : Cfg} {t : List (Req × Ans)} {e : Exn} (h : MayP (cur cfg t) t e) :
+    C11.mayPropagate (run cfg t.reverse) t.reverse e = true := by
+  rw [run_reverse]
+  unfold C11.mayPropagate raisedByCallback
+  rw [raisedBy_reverse]
+  rcases h with ⟨h1, h2⟩ | h | ⟨h1, h2⟩
+  · rcases h2 with h2 | h2 <;> simp [h1, h2]
+  · rcases h with h | h
+    · subst h; simp
+    · simp [h]
+  · subst h1; simp [h2]
+
+/-- the monitor's verdict, in the shape the proofs produce it -/
+theorem ok_unfold (cfg : Cfg) (e : Entry) (t : Trace) (r : Res) :
+    Mon.C11.ok cfg e t r =
+      (if hasLoop cfg e && e.isExecute && !Mon.rejected t && !Mon.attemptHookFault t then
+        (!(run cfg t).fault || ((r matches .raised _) && !(run cfg t).opAfterFault))
+        && (match r with
+            | .ret _ => false
+            | .raised ex => C11.mayPropagate (run cfg t) t ex
+            | .outcome o _ => outcomeOk cfg (run cfg t) o)
+      else true) := by
+  unfold Mon.C11.ok outcomeOk
+  rfl
+
+theorem verdict_outcome {cfg : Cfg} {e : Entry} {t : List (Req × Ans)} {o : Outcome} {tl : List TimelineEv}
+    (h : Rej t ∨ ((cur cfg t).hookFault = true ∨ ((cur cfg t).fault = false ∧ outcomeOk cfg (cur cfg t) o = true))) :
+    Mon.C11.ok cfg e t.reverse (.outcome o tl) = true := by
+  rw [ok_unfold, run_reverse, rejected_reverse, attemptHookFault_reverse, ← hookFault_fold cfg]
+  split
+  · rename_i hg
+    simp only [Bool.and_eq_true, Bool.not_eq_true'] at hg
+    rcases h with h | h | h
+    · simp [Rej, hg.1.2] at h
+    · simp [hg.2] at h
+    · simp [h.1, h.2]
+  · rfl
+
+theorem verdict_raised {cfg : Cfg} {e : Entry} {t : List (Req × Ans)} {ex : Exn}
+    (h : Rej t ∨ ((cur cfg t).hookFault = true ∨
+      (((cur cfg t).fault = false ∨ (cur cfg t).opAfterFault = false) ∧ MayP (cur cfg t) t ex))) :
+    Mon.C11.ok cfg e t.reverse (.raised ex) = true := by
+  rw [ok_unfold]
+  split
+  · rename_i hg
+    rw [rejected_reverse, attemptHookFault_reverse, ← hookFault_fold cfg] at hg
+    simp only [Bool.and_eq_true, Bool.not_eq_true'] at hg
+    rcases h with h | h | h
+    · simp [Rej, hg.1.2] at h
+    · simp [hg.2] at h
+    · have hm := mayPropagate_of h.2
+      rw [run_reverse] at hm
+      simp only [run_reverse]
+      rcases h.1 with h1 | h1 <;> simp [h1, hm]
+  · rfl
+
+/--
+**C11.**  For every configuration, every entry point and every world, the run satisfies the monitor
+`Mon.C11.ok` (see `Monitors.lean` for its text; the conjuncts are restated one by one below).
+-/
+theorem execute_faithful (cfg : Cfg) (e : Entry) (w : World) :
+    Mon.C11.ok cfg e (runEntry cfg e w).2.trace.reverse (runEntry cfg e w).1 = true := by
+  cases e with
+  | call => simp [Mon.C11.ok, Entry.isExecute]
+  | pcall => simp [Mon.C11.ok, Entry.isExecute]
+  | execute =>
+    have := adequacy (runExecute_spec cfg) (C04.startWorld w) (C04.cur_start cfg w)
+    simp only [runEntry, C04.startWorld] at this ⊢
+    split at this <;> rename_i heq <;> simp only [heq, toResO]
+    · exact verdict_outcome (Or.inr (by simpa [OutOK, HF, view] using this))
+    · refine verdict_raised (Or.inr ?_)
+      rcases this with h | h
+      · exact Or.inl h
+      · exact Or.inr ⟨Or.inr h.1, h.2⟩
+  | pexecute =>
+    cases hret : cfg.hasRetry with
+    | false => simp [Mon.C11.ok, hasLoop, hret, Entry.isPolicy]
+    | true =>
+      have := adequacy (execute_retry_spec cfg hret) (C04.startWorld w) (C04.cur_start cfg w)
+      simp only [runEntry, C04.startWorld] at this ⊢
+      split at this <;> rename_i heq <;> simp only [heq, toResO]
+      · exact verdict_outcome (by simpa [FinX, OutOK, HF, view] using this)
+      · exact verdict_raised (by simpa [FinX, RaiseOK', HF, view] using this)
+
+theorem execute_faithful_script (cfg : Cfg) : ∀ (steps : List Step) (w : World),
+    ∀ l ∈ (runScript cfg steps w).1, Mon.C11.ok cfg l.entry l.trace l.res = true := by
+  intro steps
+  induction steps with
+  | nil => intro w l hl; simp [runScript] at hl
+  | cons st rest ih =>
+    intro w l hl
+    cases st with
+    | advance d => exact ih _ l (by simpa [runScript] using hl)
+    | run e =>
+      simp only [runScript, List.mem_cons] at hl
+      rcases hl with rfl | hl
+      · exact execute_faithful cfg e w
+      · exact ih _ l hl
+
+/-! ### the conjuncts of the property, one by one (corollaries of `execute_faithful`) -/
+
+/-- the monitor speaks about this run: an execute() entry with a retry loop, not rejected by the
+    breaker, in which no attempt hook and no abort predicate raised -/
+def applies (cfg : Cfg) (e : Entry) (t : Trace) : Bool :=
+  hasLoop cfg e && e.isExecute && !Mon.rejected t && !Mon.attemptHookFault t
+
+theorem step_deferred_delay (cfg : Cfg) (s : St) (x : Req × Ans)
+    (h : s.deferred = true → s.delay.isSome = true) :
+    (step cfg s x).deferred = true → (step cfg s x).delay.isSome = true := by
+  obtain ⟨r, a⟩ := x
+  cases r <;> cases a <;> simp [step, faultBy] <;> (repeat' split) <;> simp_all [record]
+
+theorem deferred_delay (cfg : Cfg) (t : List (Req × Ans)) :
+    (cur cfg t).deferred = true → (cur cfg t).delay.isSome = true := by
+  induction t with
+  | nil => intro h; cases h
+  | cons x t ih => exact step_deferred_delay cfg _ x ih
+
+section conjuncts
+variable (cfg : Cfg) (e : Entry) (w : World)
+
+/-- the monitor's three parts for an outcome -/
+theorem outcome_verdict (o : Outcome) (tl : List TimelineEv)
+    (happ : applies cfg e (runEntry cfg e w).2.trace.reverse = true)
+    (hr : (runEntry cfg e w).1 = .outcome o tl) :
+    let s := run cfg (runEntry cfg e w).2.trace.reverse
+    s.fault = false ∧ outcomeOk cfg s o = true := by
+  have h := execute_faithful cfg e w
+  rw [ok_unfold, hr] at h
+  unfold applies at happ
+  simp only [happ, if_true, Bool.and_eq_true, Bool.or_eq_true, Bool.not_eq_true'] at h
+  obtain ⟨h1, h2⟩ := h
+  refine ⟨?_, h2⟩
+  rcases h1 with h1 | h1
+  · exact h1
+  · simp at h1
+
+/-- **attempts_eq_invocations.**  `attempts` of the outcome is the number of times the operation
+    was invoked. -/
+theorem attempts_eq_invocations (o : Outcome) (tl : List TimelineEv)
+    (happ : applies cfg e (runEntry cfg e w).2.trace.reverse = true)
+    (hr : (runEntry cfg e w).1 = .outcome o tl) :
+    o.attempts = (run cfg (runEntry cfg e w).2.trace.reverse).ops := by
+  have h := (outcome_verdict cfg e w o tl happ hr).2
+  simp only [outcomeOk, Bool.and_eq_true, beq_iff_eq] at h
+  exact h.1.1
+
+/-- **ok_iff_final_success.**  `ok` is true exactly when the LAST invocation returned a value that
+    was classified as success, no earlier invocation's was, and no `record_success` hook of a
+    strategy aborted the run; `value` is then the object that invocation returned, and the failure
+    fields are all None. -/
+theorem ok_iff_final_success (o : Outcome) (tl : List TimelineEv)
+    (happ : applies cfg e (runEntry cfg e w).2.trace.reverse = true)
+    (hr : (runEntry cfg e w).1 = .outcome o tl) :
+    let s := run cfg (runEntry cfg e w).2.trace.reverse
+    (o.ok = (s.succeeded && !s.earlierSuccess && !s.abortedSuccess)) ∧
+    (o.ok = true → o.value = s.opVal ∧ s.opVal.isSome = true ∧ o.stop = none ∧ o.lastClass = none ∧
+      o.lastExc = none ∧ o.lastResult = none ∧ o.cause = none ∧ o.nextSleep = none) := by
+  have h := (outcome_verdict cfg e w o tl happ hr).2
+  simp only [outcomeOk, Bool.and_eq_true, beq_iff_eq] at h
+  refine ⟨h.1.2, fun hok => ?_⟩
+  have h3 := h.2
+  rw [hok] at h3
+  simpa [C11.successOk, and_assoc] using h3
+
+/-- **failure_fields_describe_final_failure.**  When `ok` is false: a stop reason is set; `cause`,
+    `last_class`, `last_exception` / `last_result` are those of the last RECORDED failure (the
+    first classification after the invocation that failed, its exception object or returned
+    value), exactly one of `last_exception` / `last_result` is set (none of the failure fields if
+    nothing was recorded), and unless the run was ABORTED that failure is the final attempt's; an
+    outcome without any invocation is either ABORTED or the `max_attempts = 0` case. -/
+theorem failure_fields_describe_final_failure (o : Outcome) (tl : List TimelineEv)
+    (happ : applies cfg e (runEntry cfg e w).2.trace.reverse = true)
+    (hr : (runEntry cfg e w).1 = .outcome o tl) (hok : o.ok = false) :
+    let s := run cfg (runEntry cfg e w).2.trace.reverse
+    o.value = none ∧ o.stop.isSome = true ∧ o.cause = s.recCause ∧ o.lastClass = s.recCls.map (·.klass) ∧
+    o.lastExc = s.recExc.map Exn.ref ∧ o.lastResult = s.recVal ∧
+    (s.recCause = some .exception → s.recExc.isSome = true ∧ s.recVal = none) ∧
+    (s.recCause = some .result → s.recVal.isSome = true ∧ s.recExc = none) ∧
+    (s.recCause = none → s.recExc = none ∧ s.recVal = none ∧ s.recCls = none) ∧
+    (o.stop = some .aborted ∨ s.recAt = s.ops) ∧
+    (o.stop = some .aborted ∨ s.ops ≠ 0 ∨ (cfg.maxAttempts = 0 ∧ o.stop = some .maxAttemptsGlobal)) := by
+  have h := (outcome_verdict cfg e w o tl happ hr).2
+  simp only [outcomeOk, Bool.and_eq_true, beq_iff_eq] at h
+  have h3 := h.2
+  rw [hok] at h3
+  simp only [Bool.false_eq_true, if_false, C11.failureOk, Bool.and_eq_true, beq_iff_eq, Bool.or_eq_true,
+    Option.isNone_iff_eq_none, bne_iff_ne, ne_eq] at h3
+  obtain ⟨⟨⟨⟨⟨⟨⟨⟨⟨⟨⟨a1, a2⟩, a3⟩, a4⟩, a5⟩, a6⟩, a7⟩, a8⟩, a9⟩, a10⟩, a11⟩, a12⟩ := h3
+  refine ⟨a1, a2, a6, a7, a8, a9, ?_, ?_, ?_, a11, ?_⟩
+  · intro hc; rw [hc] at a10; simpa using a10
+  · intro hc; rw [hc] at a10; simpa using a10
+  · intro hc; rw [hc] at a10; simpa [and_assoc] using a10
+  · rcases a12 with (a | a) | a
+    · exact Or.inl a
+    · exact Or.inr (Or.inl a)
+    · exact Or.inr (Or.inr a)
+
+/-- **next_sleep_iff_scheduled.**  When `ok` is false: the stop reason is SCHEDULED exactly when the
+    sleep handler of the final attempt answered DEFER, and `next_sleep_s` is then the delay that
+    handler was offered and otherwise None — so `next_sleep_s` is set exactly for deferred runs. -/
+theorem next_sleep_iff_scheduled (o : Outcome) (tl : List TimelineEv)
+    (happ : applies cfg e (runEntry cfg e w).2.trace.reverse = true)
+    (hr : (runEntry cfg e w).1 = .outcome o tl) (hok : o.ok = false) :
+    let s := run cfg (runEntry cfg e w).2.trace.reverse
+    (o.stop = some .scheduled ↔ s.deferred = true) ∧
+    o.nextSleep = (if s.deferred then s.delay else none) ∧
+    (o.nextSleep.isSome = true ↔ o.stop = some .scheduled) := by
+  have h := (outcome_verdict cfg e w o tl happ hr).2
+  simp only [outcomeOk, Bool.and_eq_true, beq_iff_eq] at h
+  have h3 := h.2
+  rw [hok] at h3
+  simp only [Bool.false_eq_true, if_false, C11.failureOk, Bool.and_eq_true, beq_iff_eq] at h3
+  obtain ⟨⟨⟨⟨⟨⟨⟨⟨⟨⟨⟨a1, a2⟩, a3⟩, a4⟩, a5⟩, a6⟩, a7⟩, a8⟩, a9⟩, a10⟩, a11⟩, a12⟩ := h3
+  have hd := deferred_delay cfg (runEntry cfg e w).2.trace
+  rw [← run_reverse] at hd
+  have h1 : (o.stop = some .scheduled ↔ (run cfg (runEntry cfg e w).2.trace.reverse).deferred = true) := by
+    cases hdf : (run cfg (runEntry cfg e w).2.trace.reverse).deferred <;> simp_all
+  refine ⟨h1, a4, ?_⟩
+  rw [a4, h1]
+  cases hdf : (run cfg (runEntry cfg e w).2.trace.reverse).deferred
+  · simp
+  · simpa using hd hdf
+
+/-- **propagation (⊆).**  What comes out of execute() as an exception is: something the LAST
+    invocation of the operation raised that is not an `Exception` (cancellation kinds) or is a
+    RetryExhaustedError (nested policy); or an error raised by one of the caller's callbacks; or
+    the ValueError for a sleep handler that did not return a SleepDecision (`stuck`: model only). -/
+theorem propagation (ex : Exn)
+    (happ : applies cfg e (runEntry cfg e w).2.trace.reverse = true)
+    (hr : (runEntry cfg e w).1 = .raised ex) :
+    C11.mayPropagate (run cfg (runEntry cfg e w).2.trace.reverse) (runEntry cfg e w).2.trace.reverse ex = true := by
+  have h := execute_faithful cfg e w
+  rw [ok_unfold, hr] at h
+  unfold applies at happ
+  simp only [happ, if_true, Bool.and_eq_true] at h
+  exact h.2
+
+/-- execute() never returns like call() -/
+theorem never_ret (v : Nat)
+    (happ : applies cfg e (runEntry cfg e w).2.trace.reverse = true) : (runEntry cfg e w).1 ≠ .ret v := by
+  intro hr
+  have h := execute_faithful cfg e w
+  rw [ok_unfold, hr] at h
+  unfold applies at happ
+  simp [happ] at h
+
+/-- **propagation (⊇) — the F5 regression theorem.**  If a strategy, a strategy's
+    `record_failure` / `record_success`, the classifier, the result classifier, the sleep handler
+    or the sleeper raised anything but an abort (`fault`), then execute() ends with an exception
+    — it does not return an outcome, so the error was not swallowed — and the operation was not
+    invoked again afterwards — so the error was not handled as a failed attempt and retried.  In
+    particular this holds after the operation has RETURNED (the `attempt_state.returned` repair). -/
+theorem callback_errors_propagate
+    (happ : applies cfg e (runEntry cfg e w).2.trace.reverse = true)
+    (hf : (run cfg (runEntry cfg e w).2.trace.reverse).fault = true) :
+    (∃ ex, (runEntry cfg e w).1 = .raised ex) ∧
+      (run cfg (runEntry cfg e w).2.trace.reverse).opAfterFault = false := by
+  have h := execute_faithful cfg e w
+  rw [ok_unfold] at h
+  unfold applies at happ
+  simp only [happ, if_true, Bool.and_eq_true, Bool.or_eq_true, Bool.not_eq_true', hf] at h
+  obtain ⟨h1, _⟩ := h
+  rcases h1 with h1 | ⟨h1, h2⟩
+  · cases h1
+  · refine ⟨?_, h2⟩
+    cases hr : (runEntry cfg e w).1 with
+    | raised ex => exact ⟨ex, rfl⟩
+    | ret v => rw [hr] at h1; simp at h1
+    | outcome o tl => rw [hr] at h1; simp at h1
+
+/-- …equivalently: an outcome is returned only if no such callback raised. -/
+theorem outcome_means_no_callback_error (o : Outcome) (tl : List TimelineEv)
+    (happ : applies cfg e (runEntry cfg e w).2.trace.reverse = true)
+    (hr : (runEntry cfg e w).1 = .outcome o tl) :
+    (run cfg (runEntry cfg e w).2.trace.reverse).fault = false :=
+  (outcome_verdict cfg e w o tl happ hr).1
+
+end conjuncts
+
+/-! Non-vacuity: as for C04 the hypotheses are about `runEntry`; the instances are exhibited through
+    the compiled driver by `harness/families/loop.py` (every stop reason × cause × abort point is
+    counted in its `distribution`).  At the level of the monitor alone: -/
+
+/-- an ABORTED outcome carrying the failure recorded for an EARLIER attempt is accepted … -/
+example : Mon.C11.ok { abortIf := true } .execute
+    [(.abortIf, .bool false 0), (.op 1, .raise (.ordinary 1 .transient) 0), (.abortIf, .bool false 0),
+     (.classify "o1", .klass ⟨.transient, none⟩ 0), (.abortIf, .bool false 0),
+     (.strategy .default .ctx ⟨1, .transient, none, none, 60, .exception⟩, .delay (.fin 1) 0),
+     (.sleeper .dflt 1, .unit 0), (.abortIf, .bool false 0), (.op 2, .raise (.ordinary 2 .unknown) 0),
+     (.abortIf, .bool true 0)]
+    (.outcome { ok := false, value := none, stop := some .aborted, attempts := 2, lastClass := some .transient,
+                lastExc := some "o1", lastResult := none, cause := some .exception, elapsed := 0,
+                nextSleep := none } []) = true := by decide
+
+/-- … but not one that claims the LAST attempt's exception, which was never recorded -/
+example : Mon.C11.ok { abortIf := true } .execute
+    [(.abortIf, .bool false 0), (.op 1, .raise (.ordinary 1 .transient) 0), (.abortIf, .bool false 0),
+     (.classify "o1", .klass ⟨.transient, none⟩ 0), (.abortIf, .bool false 0),
+     (.strategy .default .ctx ⟨1, .transient, none, none, 60, .exception⟩, .delay (.fin 1) 0),
+     (.sleeper .dflt 1, .unit 0), (.abortIf, .bool false 0), (.op 2, .raise (.ordinary 2 .unknown) 0),
+     (.abortIf, .bool true 0)]
+    (.outcome { ok := false, value := none, stop := some .aborted, attempts := 2, lastClass := some .unknown,
+                lastExc := some "o2", lastResult := none, cause := some .exception, elapsed := 0,
+                nextSleep := none } []) = false := by decide
 
 end Redress.Props.C11
